@@ -448,6 +448,7 @@ func runRandomWorkload(rcx *RunCtx, o workloadOpts) {
 						nf := len(th.conn.Mon.Req.Frames)
 						th.conn.SendRaw(badFrame(newTag(), simrt.Choose(4)))
 						rcx.Count("undecodable_requests", 1)
+						simrt.Fault("peer.undecodable-frame")
 						if len(th.conn.Mon.Req.Frames) > nf {
 							req = th.conn.Mon.Req.Frames[len(th.conn.Mon.Req.Frames)-1]
 						}
